@@ -151,6 +151,8 @@ func propC10(c *Ctx) {
 	propC10Intervals(c)
 
 	// Q4: pairing
+	c.Returns(q1, pm+"IsPortAvailable", RetSpec{Args: []string{pm + "isPortAvailableLocked($0, $1, $2, $3, $4)"}, Why: "the exported test is the locked test with the caller's arguments"})
+
 	q4 := c.Rule("Q4", "K2 pairing / K5", "reservations released on later error exits; ReleasePort deletes only its entry", 8)
 	release := Is("(*ports.PortManager).ReleasePort")
 	if fn := c.Fn(q4, "(*tcp.endpoint).Bind"); fn != nil {
